@@ -18,7 +18,48 @@ use crate::Result;
 type Sorting = Vec<ColumnSort<CId>>;
 
 pub(super) fn postprocess(query: SqlQuery, ctx: &mut Context) -> SqlQuery {
+    #[cfg(prql_verif)]
+    let verif_before = query.clone();
+
     let query = infer_sorts(query, ctx);
+
+    #[cfg(prql_verif)]
+    crate::debug::verif::emit("postprocess", || {
+        // the query before and after sort inference, and what the pass reads from the context:
+        // redirects of the relation instances, Computes that are bare column references, and the
+        // relation instance of every column that is a column of one
+        let anchor = &ctx.anchor;
+        let instances = anchor
+            .relation_instances
+            .iter()
+            .map(|(riid, inst)| {
+                let redirects = inst.cid_redirects.iter().collect_vec();
+                serde_json::json!({"riid": riid, "source": inst.table_ref.source, "redirects": redirects})
+            })
+            .collect_vec();
+        let aliases = anchor
+            .column_decls
+            .values()
+            .filter_map(|col| match col {
+                ColumnDecl::Compute(c) => match c.expr.kind {
+                    ExprKind::ColumnRef(r) => Some((c.id, r)),
+                    _ => None,
+                },
+                _ => None,
+            })
+            .collect_vec();
+        let decls = anchor
+            .column_decls
+            .iter()
+            .filter_map(|(cid, col)| match col {
+                ColumnDecl::RelationColumn(riid, _, _) => Some((*cid, *riid)),
+                _ => None,
+            })
+            .collect_vec();
+        serde_json::json!({"before": verif_before, "after": query, "instances": instances,
+            "aliases": aliases, "decls": decls})
+        .to_string()
+    });
 
     assign_names(query, ctx)
 }
